@@ -54,7 +54,17 @@ def count_loc(class_node: Any, source: str) -> int:
     """
     start_line = class_node.start_point[0]
     end_line = class_node.end_point[0]
-    return end_line - start_line + 1
+    lines = source.split("\n")[start_line : end_line + 1]
+    if not lines:
+        return end_line - start_line + 1
+    # Lines of code exclude blank lines and comment lines, as for Python and Rust
+    return sum(1 for line in lines if _is_code_line(line))
+
+
+def _is_code_line(line: str) -> bool:
+    """Check if a source line is neither blank nor a comment-only line."""
+    stripped = line.strip()
+    return bool(stripped) and not stripped.startswith(("//", "/*", "*"))
 
 
 def _get_class_body(class_node: Any) -> Any:
